@@ -138,3 +138,17 @@ def impl_cost(x):
     except Exception:
         pass
     return x
+
+
+def model_from_ete(tree):
+    """ete3 tree -> (T, {ete node: model index}) by pre-order position"""
+    def shape(node):
+        if node.is_leaf():
+            return None
+        return tuple(shape(c) for c in node.children)
+
+    t = T(shape(tree))
+    idx = {}
+    for v, node in zip(t.order_pre(), tree.traverse("preorder")):
+        idx[node] = v
+    return t, idx
